@@ -3,6 +3,7 @@ import Proofs.C08Init
 import Proofs.TieBasis
 import Proofs.DeclBasis
 import Proofs.TieAccept
+import Proofs.SrcC08
 #print axioms PV.Proofs.C08.declared_cell_bounds
 #print axioms PV.Proofs.C08.declared_site_bounds
 #print axioms PV.Proofs.C08.declared_initial_cell
@@ -54,3 +55,7 @@ import Proofs.TieAccept
 #print axioms PV.Proofs.Tie.energy_surface_tie
 #print axioms PV.Proofs.Tie.test_acceptance_tie
 #print axioms PV.Proofs.Tie.accept_score_tie
+#print axioms PV.Proofs.Source.C08_source_clamp_in_range
+#print axioms PV.Proofs.Source.C08_source_proposal_in_range
+#print axioms PV.Proofs.Source.C08_source_state_handles_clamp
+#print axioms PV.Proofs.Source.C08_source_no_degenerate_cell
